@@ -537,6 +537,9 @@ func (e *Engine) countFaults(cmd *Cmd, got Outcome) {
 	if strings.HasPrefix(got.Class, "panic") {
 		e.fault("abort-inside-call")
 	}
+	if got.Class == "panic-other" {
+		e.fault("abort-inside-user-callback (native matcher)")
+	}
 }
 
 // afterStep observes the state and applies the state rules.
